@@ -70,7 +70,8 @@ var osWatch = map[string]bool{"ReadDir": true, "Mkdir": true, "RemoveAll": true,
 var timeWatch = map[string]bool{"After": true, "NewTimer": true, "NewTicker": true, "AfterFunc": true, "Tick": true}
 
 func main() {
-	repo := flag.String("repo", "/repo", "repository root")
+	repo := flag.String("repo", "/repo", "repository root (overlay keys are under this path)")
+	srcFlag := flag.String("src", "", "tree to read the sources from (default: -repo); lets a scratch copy be checked through the same harness module")
 	verif := flag.String("verif", "/verif", "verif root")
 	out := flag.String("out", "", "scratch output directory")
 	nosync := flag.Bool("nosync", false, "do not swap sync imports")
@@ -79,8 +80,12 @@ func main() {
 		fatal("need -out")
 	}
 	must(os.MkdirAll(*out, 0o755))
+	src := *srcFlag
+	if src == "" {
+		src = *repo
+	}
 
-	pkgs := goList(*repo)
+	pkgs := goList(src)
 	exports := map[string]string{}
 	for _, p := range pkgs {
 		if p.Export != "" {
@@ -106,7 +111,10 @@ func main() {
 		if strings.HasSuffix(p.ImportPath, "/internal/testutil") || strings.Contains(p.ImportPath, "/internal/zzvrt") {
 			continue
 		}
-		rewritePackage(fset, imp, p, *repo, *out, *nosync, rep, replace)
+		rewritePackage(fset, imp, p, src, *repo, *out, *nosync, rep, replace)
+	}
+	if src != *repo {
+		overlayTree(src, *repo, replace)
 	}
 
 	// shim packages -> <repo>/internal/zzvrt/<name>/
@@ -184,7 +192,56 @@ type fileCtx struct {
 	mentionsOSFile bool
 }
 
-func rewritePackage(fset *token.FileSet, imp types.Importer, p listPkg, repo, out string, nosync bool, rep *report, replace map[string]string) {
+// overlayTree maps every non-test Go file of src onto the corresponding path
+// under repo (unless already rewritten) and deletes repo files absent in src.
+func overlayTree(src, repo string, replace map[string]string) {
+	inSrc := map[string]bool{}
+	filepath.Walk(src, func(path string, info os.FileInfo, err error) error {
+		if err != nil {
+			return nil
+		}
+		if info.IsDir() {
+			if info.Name() == ".git" {
+				return filepath.SkipDir
+			}
+			return nil
+		}
+		rel, _ := filepath.Rel(src, path)
+		if rel == "go.mod" || rel == "go.sum" {
+			return nil
+		}
+		if !strings.HasSuffix(path, ".go") || strings.HasSuffix(path, "_test.go") {
+			return nil
+		}
+		inSrc[rel] = true
+		key := filepath.Join(repo, rel)
+		if _, ok := replace[key]; !ok {
+			replace[key] = path
+		}
+		return nil
+	})
+	filepath.Walk(repo, func(path string, info os.FileInfo, err error) error {
+		if err != nil {
+			return nil
+		}
+		if info.IsDir() {
+			if info.Name() == ".git" {
+				return filepath.SkipDir
+			}
+			return nil
+		}
+		if !strings.HasSuffix(path, ".go") || strings.HasSuffix(path, "_test.go") {
+			return nil
+		}
+		rel, _ := filepath.Rel(repo, path)
+		if !inSrc[rel] {
+			replace[path] = ""
+		}
+		return nil
+	})
+}
+
+func rewritePackage(fset *token.FileSet, imp types.Importer, p listPkg, src, repo, out string, nosync bool, rep *report, replace map[string]string) {
 	var files []*ast.File
 	var names []string
 	for _, g := range p.GoFiles {
@@ -209,7 +266,7 @@ func rewritePackage(fset *token.FileSet, imp types.Importer, p listPkg, repo, ou
 		fmt.Fprintf(os.Stderr, "vinstr: type errors in %s: %v\n", p.ImportPath, err)
 	}
 	for i, f := range files {
-		rel, _ := filepath.Rel(repo, names[i])
+		rel, _ := filepath.Rel(src, names[i])
 		fc := &fileCtx{fset: fset, info: info, file: f, relName: rel, need: map[string]bool{}, rep: rep, keep: map[string]bool{}}
 		if src, err := os.ReadFile(names[i]); err == nil && bytes.Contains(src, []byte("os.File")) {
 			fc.mentionsOSFile = true
@@ -235,7 +292,7 @@ func rewritePackage(fset *token.FileSet, imp types.Importer, p listPkg, repo, ou
 		dst := filepath.Join(out, "src", rel)
 		must(os.MkdirAll(filepath.Dir(dst), 0o755))
 		must(os.WriteFile(dst, src, 0o644))
-		replace[names[i]] = dst
+		replace[filepath.Join(repo, rel)] = dst
 		rep.Files++
 	}
 }
